@@ -53,7 +53,7 @@ CLAIMED = {
     },
     "C11": {
         "technique": "Coq proof (rewind restores the exact pre-call finger / the fresh chunk's full capacity: same request, same address, no allocator request) + probe in the driver",
-        "text": "C11_no_run_without_space / C11_rewind_restores / C11_ok_keeps_slot; the driver follows every failed initialiser that allocated nothing by a probe request of the same layout (must be served without a global-allocator request), checks the error value byte for byte, and covers initialisers that allocate and keep / release / nest. " + ARENA_TEXT + "C11_rewind_keeps_everything_valid proves that whatever the initialiser allocated and kept stays valid across the rewind. Not a theorem: exactly-once delivery of the error value (driver check).",
+        "text": "C11_no_run_without_space / C11_rewind_restores / C11_ok_keeps_slot; the driver follows every failed initialiser that allocated nothing by a probe request of the same layout (must be served without a global-allocator request), checks the error value byte for byte, and covers initialisers that allocate and keep / release / nest. " + ARENA_TEXT + "C11_rewind_keeps_everything_valid proves that whatever the initialiser allocated and kept stays valid across the rewind. Source tie: C11_source_entry / C11_source_exit (what alloc_try_with and try_alloc_try_with save on entry, and on an Err the two tests and the two fingers stored, parsed from lib.rs on every run and proved equal to the model's for every MIN_ALIGN) / C11_model_assembled_from_source_parts / C11_source_frames (slot reserved through (try_)alloc_with before the match; the error value read out once; try_fill releases with dealloc). Not a theorem: exactly-once delivery of the error value (driver check).",
         "design_ref": "DESIGN.md §6 C11",
     },
     "C12": {
